@@ -524,7 +524,7 @@ def _iadd(s):
     return a[8:]
 
 
-def _append(s):
+def _append_tok(s):
     a = BitArray()
     a.append(s)
     return a
@@ -561,7 +561,7 @@ def exec_modeseq(name, order, x):
                 "BitStream.fromstring(token)": lambda: _fromstring(BitStream, tok),
                 "BitArray.fromstring(token)": lambda: _fromstring(BitArray, tok),
                 "BitArray('0x00') += token": lambda: _iadd(tok),
-                "BitArray().append(token)": lambda: _append(tok),
+                "BitArray().append(token)": lambda: _append_tok(tok),
                 "BitArray('0b1').prepend(token)": lambda: _prepend(tok, n),
                 "Bits() + token": lambda: Bits() + tok,
                 "token + Bits()  (radd)": lambda: tok + Bits(),
@@ -642,7 +642,7 @@ def oracle(line: str, out: str, extra: dict):
             for route, got in extra["steps"][i].items():
                 want = exp
                 if route == "keyword == token":
-                    want = "!ValueError" if exp == "!ValueError" else ("True" if exp != "nan" or name in ("bfloat", "bfloatle") else "True")
+                    want = "!ValueError" if exp == "!ValueError" else "True"
                 if got != want:
                     return (f"{name}={x!r} ({f[4]}) via {route} under mxfp_overflow={m!r} (step {i + 1} of the history "
                             f"{' -> '.join(hist)}, caches not cleared in between): expected {want}, got {got}")
